@@ -40,7 +40,7 @@ def check_string(acc, enc, dec, s):
     if d != s:
         acc.violation(_classify(s, d) or "roundtrip-mismatch",
                       "decode_from_tbcd(encode_to_tbcd(%r)) = %r" % (s, d), {"s": s, "iface": "str"})
-    if s[0] != "0":
+    if s[0] != "0" or s == "0":         # the number as an int (zero included: it is the one int that is falsy)
         try:
             e2 = enc(int(s))
         except BaseException as ex:
@@ -119,6 +119,11 @@ def run_batch(b):
                 seen.add(s)
                 check_avp(acc, (MsisdnAVP, StnSrAVP), s)
                 distinct += 4
+        # every number 0..1999 as int and as str (zero and one-digit numbers included)
+        for v in range(0, 2000):
+            check_avp(acc, (MsisdnAVP, StnSrAVP), str(v))
+            check_string(acc, encode_to_tbcd, decode_from_tbcd, str(v))
+            distinct += 4
         acc.sample({"avp_numbers": sorted(seen, key=len)[:4]})
     acc.extra["distinct_judged"] = distinct
     return acc
